@@ -729,6 +729,15 @@ func genSTLDoc(t *rapid.T, avoidKnown bool) stlDoc {
 		}
 		nr := rapid.IntRange(1, 3).Draw(t, "rows")
 		budget := 100
+		// 1 cue in 6: a single open-subtitling row that fills the 112-byte text field to the last byte (or one short)
+		if !teletext && rapid.IntRange(0, 5).Draw(t, "full") == 0 {
+			n := rapid.SampledFrom([]int{112, 112, 111, 110}).Draw(t, "fulllen")
+			txt := strings.Repeat("ab", n/2)[:n-1] + "Z"
+			c.Rows = [][]stlRun{{{Text: txt, Color: -1}}}
+			d.Cues = append(d.Cues, c)
+			d.SpaceAround = false
+			continue
+		}
 		for j := 0; j < nr; j++ {
 			nruns := rapid.IntRange(1, 3).Draw(t, "runs")
 			var runs []stlRun
